@@ -11,7 +11,7 @@ props = [json.loads(l) for l in open(os.path.join(HERE, "properties.jsonl"))]
 BASELINE = ("cd /repo && /venv/bin/python -m pytest -ra -q -p no:cacheprovider --timeout=900 "
             "--continue-on-collection-errors")
 # properties whose check has been run to completion on the unchanged tree by the coordinator
-READY = {"C01", "C02", "C03", "C04", "C05", "C13", "C18", "C19", "C06", "C07", "C08", "C09", "C10", "C12", "C15", "C16", "C17", "C20"}
+READY = {"C01", "C02", "C03", "C04", "C05", "C11", "C13", "C14", "C18", "C19", "C06", "C07", "C08", "C09", "C10", "C12", "C15", "C16", "C17", "C20"}
 checks, na, served = [], [], []
 for p in props:
     pid = p["id"]
